@@ -8,7 +8,7 @@
    AVX2; every load stays inside the pages of the argument and the only store
    is the result.  Both wrappers select the body by the letter test. *)
 From Coq Require Import List ZArith Lia Bool.
-From Strcase Require Import Base Spec X86 X86Facts.
+From Strcase Require Import Base Spec Kernels X86 X86Facts.
 From StrcaseGen Require Import AsmProg.
 From Coq Require Import ZifyBool ZifyNat.
 Import ListNotations.
@@ -520,4 +520,638 @@ Lemma fh_t : fh t = index_byte_from f s 0.
 Proof. apply fh_map_ind. Qed.
 
 End Plain.
+(* ===================================================================== *)
+(* the body for letters: a lane matches when (lane OR 0x20) = cc           *)
+(* ===================================================================== *)
+Section Case.
+Variable cc : Z.
+Notation f := (fun b => cc =? Z.lor 32 b).
+Notation t := (map (ind f) s).
+
+Lemma t_length_c : length t = length s.
+Proof. apply map_length. Qed.
+
+Lemma chunkT_c w off : (off + w <= length s)%nat ->
+  let data := firstn w (skipn off s) in
+  load A s junk w (A + Z.of_nat off) = Some data /\ length data = w /\ map (ind f) data = firstn w (skipn off t).
+Proof.
+  intros H data. split; [|split].
+  - rewrite (load_bytes A s junk w) by (apply chunk_readable; unfold X86.len; lia).
+    rewrite (bytes_at_inside A s junk) by (unfold X86.len; lia). unfold data. do 3 f_equal. lia.
+  - unfold data. rewrite firstn_length, skipn_length. lia.
+  - unfold data. rewrite skipn_map, firstn_map. reflexivity.
+Qed.
+
+(* ---------- lengths below 16 ---------- *)
+Lemma small_path_c ax cx dx di r9 r10 r11 r12 r13 r14 r15 x0 x1 x2 x3 x4 x5 x6 x7 :
+  len < 16 -> vlow 16 x0 = repeat cc 16 -> vlow 16 x2 = repeat 32 16 ->
+  exists fuel, run fuel 39 (mk ax len cx dx A di slot r9 r10 r11 r12 r13 r14 r15 x0 x1 x2 x3 x4 x5 x6 x7 (cmp_flags len 16 signed64) None)
+               = Done (Some (fh t)).
+Proof.
+  intros Hl Hx0 Hx2m. pose proof len_nonneg as H0. unfold mk. unfold two63 in Hlen.
+  destruct (Z.eq_dec len 0) as [E0|N0].
+  { (* empty *)
+    eexists. ystep. rewrite holds_cmp_LT by (unfold two63; lia). replace (len <? 16) with true by lia. cbv iota.
+    ystep. ystep. cbn [holds zf]. rewrite Z.land_diag. replace (len =? 0) with true by lia. cbv iota.
+    ystep. replace (0 + slot + 0 =? slot) with true by lia. cbv iota. rewrite store_m1. ystep.
+    rewrite (nil_of_len0 E0). reflexivity. }
+  set (n := length s). assert (Hn : len = Z.of_nat n) by reflexivity.
+  assert (Lt : length t = n) by apply t_length_c.
+  destruct (Z_lt_le_dec ((16 + A + 0) mod 4096) 16) as [Pg|Pg].
+  - (* the 16-byte load at s would cross into the next page: load the 16 bytes that END at the end of s *)
+    assert (Hrd : forall k, (k < 16)%nat -> readable A s (-16 + A + len * 1 + Z.of_nat k) = true).
+    { intros k Hk. destruct (Z_lt_le_dec (-16 + A + len * 1 + Z.of_nat k) A) as [Lo|Hi].
+      - apply (readable_first_page A s junk); lia.
+      - apply (readable_inside A s junk); lia. }
+    set (J := bytes_at A s junk (A - Z.of_nat (16 - n)) (16 - n)).
+    assert (Eb : bytes_at A s junk (-16 + A + len * 1) 16 = J ++ s).
+    { replace (-16 + A + len * 1) with (A - Z.of_nat (16 - n)) by lia.
+      pose proof (bytes_at_app A s junk (A - Z.of_nat (16 - n)) (16 - n) n) as B.
+      replace ((16 - n) + n)%nat with 16%nat in B by lia. rewrite B.
+      replace (A - Z.of_nat (16 - n) + Z.of_nat (16 - n)) with A by lia. unfold J. f_equal. apply bytes_at_whole. }
+    assert (LJ : length (J ++ s) = 16%nat) by (rewrite app_length; unfold J; rewrite bytes_at_length; lia).
+    assert (LJ0 : length (map (ind f) J) = (16 - length t)%nat) by (rewrite map_length, Lt; unfold J; apply bytes_at_length).
+    pose proof (movmsk_range t) as Rs. rewrite Lt in Rs.
+    destruct (Z.eq_dec (movmsk t) 0) as [Mz|Mnz].
+    + eexists. ystep. rewrite holds_cmp_LT by (unfold two63; lia). replace (len <? 16) with true by lia. cbv iota.
+      ystep. ystep. cbn [holds zf]. rewrite Z.land_diag. replace (len =? 0) with false by lia. cbv iota.
+      ystep. rewrite in64_true by (unfold two64; lia). cbv iota.
+      ystep. ystep. cbn [holds zf]. rewrite testw_page by lia. replace ((16 + A + 0) mod 4096 <? 16) with true by lia. cbv iota.
+      ystep. rewrite (load_bytes A s junk 16 _ Hrd), Eb. cbv iota.
+      ystep. ystep. ystep. rewrite (cmp_or_low16 cc _ _ _ _ _ Hx0 Hx2m LJ), map_app.
+      ystep. ystep. ystep. ystep. replace len with (Z.of_nat (length t)) by lia.
+      rewrite (shift_mask_gen (map (ind f) J) t) by (try exact LJ0; lia). rewrite Mz. change (0 =? 0) with true. cbv iota.
+      ystep. cbn [holds zf]. cbv iota.
+      ystep. replace (0 + slot + 0 =? slot) with true by lia. cbv iota. rewrite store_m1. ystep.
+      f_equal. f_equal. symmetry. apply movmsk_zero. exact Mz.
+    + assert (Hbsf : bsf (movmsk t) = fh t) by (apply bsf_movmsk; [lia|exact Mnz]).
+      pose proof (fh_range t) as Rfs. rewrite Lt in Rfs.
+      assert (Hne : fh t <> -1) by (intros E; apply movmsk_zero in E; congruence).
+      eexists. ystep. rewrite holds_cmp_LT by (unfold two63; lia). replace (len <? 16) with true by lia. cbv iota.
+      ystep. ystep. cbn [holds zf]. rewrite Z.land_diag. replace (len =? 0) with false by lia. cbv iota.
+      ystep. rewrite in64_true by (unfold two64; lia). cbv iota.
+      ystep. ystep. cbn [holds zf]. rewrite testw_page by lia. replace ((16 + A + 0) mod 4096 <? 16) with true by lia. cbv iota.
+      ystep. rewrite (load_bytes A s junk 16 _ Hrd), Eb. cbv iota.
+      ystep. ystep. ystep. rewrite (cmp_or_low16 cc _ _ _ _ _ Hx0 Hx2m LJ), map_app.
+      ystep. ystep. ystep. ystep. replace len with (Z.of_nat (length t)) by lia.
+      rewrite (shift_mask_gen (map (ind f) J) t) by (try exact LJ0; lia). replace (movmsk t =? 0) with false by lia. cbv iota. rewrite Hbsf.
+      ystep. cbn [holds zf]. cbv iota.
+      ystep. replace (0 + slot + 0 =? slot) with true by lia. cbv iota. ystep.
+      f_equal. f_equal. unfold signed64, two63. replace (fh t <? 9223372036854775808) with true by lia. reflexivity.
+  - (* load 16 bytes at s: s followed by 16 - len bytes of the same page *)
+    assert (Hrd : forall k, (k < 16)%nat -> readable A s (0 + A + 0 + Z.of_nat k) = true).
+    { intros k Hk. apply (readable_first_page A s junk); lia. }
+    set (J := bytes_at A s junk (A + Z.of_nat n) (16 - n)).
+    assert (Eb : bytes_at A s junk (0 + A + 0) 16 = s ++ J).
+    { replace (0 + A + 0) with A by lia. replace 16%nat with (n + (16 - n))%nat by lia.
+      rewrite bytes_at_app. unfold n at 1. rewrite bytes_at_whole. reflexivity. }
+    assert (LJ : length (s ++ J) = 16%nat) by (rewrite app_length; unfold J; rewrite bytes_at_length; lia).
+    set (tJ := map (ind f) J).
+    assert (LtJ : length (t ++ tJ) = 16%nat) by (rewrite app_length, Lt; unfold tJ; rewrite map_length; unfold J; rewrite bytes_at_length; lia).
+    assert (Emsk : movmsk (t ++ tJ) = movmsk t + 2 ^ Z.of_nat n * movmsk tJ) by (rewrite movmsk_app, Lt; reflexivity).
+    pose proof (movmsk_range t) as Rs. pose proof (movmsk_range tJ) as RJ.
+    destruct (Z.eq_dec (movmsk (t ++ tJ)) 0) as [Mz|Mnz].
+    + eexists. ystep. rewrite holds_cmp_LT by (unfold two63; lia). replace (len <? 16) with true by lia. cbv iota.
+      ystep. ystep. cbn [holds zf]. rewrite Z.land_diag. replace (len =? 0) with false by lia. cbv iota.
+      ystep. rewrite in64_true by (unfold two64; lia). cbv iota.
+      ystep. ystep. cbn [holds zf]. rewrite testw_page by lia. replace ((16 + A + 0) mod 4096 <? 16) with false by lia. cbv iota.
+      ystep. rewrite (load_bytes A s junk 16 _ Hrd), Eb. cbv iota.
+      ystep. ystep. ystep. rewrite (cmp_or_low16 cc _ _ _ _ _ Hx0 Hx2m LJ), map_app. fold tJ.
+      ystep. rewrite (movmsk_small16 _ LtJ), Mz. change (0 =? 0) with true. cbv iota.
+      ystep. cbn [holds zf]. cbv iota.
+      ystep. replace (0 + slot + 0 =? slot) with true by lia. cbv iota. rewrite store_m1. ystep.
+      f_equal. f_equal. symmetry. apply movmsk_zero. assert (0 <= 2 ^ Z.of_nat n) by (apply Z.pow_nonneg; lia). nia.
+    + set (k := fh (t ++ tJ)).
+      assert (Hk : 0 <= k < 16).
+      { destruct (fh_range (t ++ tJ)) as [E|E]; [apply movmsk_zero in E; congruence|]. rewrite LtJ in E. exact E. }
+      assert (Hbsf : bsf (movmsk (t ++ tJ)) = k) by (apply bsf_movmsk; [rewrite LtJ; lia|exact Mnz]).
+      assert (Hks : k = if fh t <? 0 then (if fh tJ <? 0 then -1 else Z.of_nat (length t) + fh tJ) else fh t) by (unfold k; apply fh_app).
+      rewrite Lt in Hks.
+      pose proof (fh_range t) as Rfs. rewrite Lt in Rfs. pose proof (fh_range tJ) as RfJ.
+      assert (Hcase : (fh t = -1 /\ len <= k) \/ (0 <= fh t /\ k = fh t /\ k < len)).
+      { destruct (fh t <? 0) eqn:Fs; destruct (fh tJ <? 0) eqn:FJ; lia. }
+      destruct Hcase as [[Fs Hge]|(Fs & Ek & Hlt)].
+      * eexists. ystep. rewrite holds_cmp_LT by (unfold two63; lia). replace (len <? 16) with true by lia. cbv iota.
+        ystep. ystep. cbn [holds zf]. rewrite Z.land_diag. replace (len =? 0) with false by lia. cbv iota.
+        ystep. rewrite in64_true by (unfold two64; lia). cbv iota.
+        ystep. ystep. cbn [holds zf]. rewrite testw_page by lia. replace ((16 + A + 0) mod 4096 <? 16) with false by lia. cbv iota.
+        ystep. rewrite (load_bytes A s junk 16 _ Hrd), Eb. cbv iota.
+        ystep. ystep. ystep. rewrite (cmp_or_low16 cc _ _ _ _ _ Hx0 Hx2m LJ), map_app. fold tJ.
+        ystep. rewrite (movmsk_small16 _ LtJ). replace (movmsk (t ++ tJ) =? 0) with false by lia. cbv iota. rewrite Hbsf.
+        ystep. cbn [holds zf]. cbv iota.
+        ystep. ystep. rewrite holds_cmp_AE. unfold two32.
+        rewrite (Z.mod_small k) by lia. rewrite (Z.mod_small len) by lia.
+        replace (len <=? k) with true by lia. cbv iota.
+        ystep. replace (0 + slot + 0 =? slot) with true by lia. cbv iota. rewrite store_m1. ystep. congruence.
+      * eexists. ystep. rewrite holds_cmp_LT by (unfold two63; lia). replace (len <? 16) with true by lia. cbv iota.
+        ystep. ystep. cbn [holds zf]. rewrite Z.land_diag. replace (len =? 0) with false by lia. cbv iota.
+        ystep. rewrite in64_true by (unfold two64; lia). cbv iota.
+        ystep. ystep. cbn [holds zf]. rewrite testw_page by lia. replace ((16 + A + 0) mod 4096 <? 16) with false by lia. cbv iota.
+        ystep. rewrite (load_bytes A s junk 16 _ Hrd), Eb. cbv iota.
+        ystep. ystep. ystep. rewrite (cmp_or_low16 cc _ _ _ _ _ Hx0 Hx2m LJ), map_app. fold tJ.
+        ystep. rewrite (movmsk_small16 _ LtJ). replace (movmsk (t ++ tJ) =? 0) with false by lia. cbv iota. rewrite Hbsf.
+        ystep. cbn [holds zf]. cbv iota.
+        ystep. ystep. rewrite holds_cmp_AE. unfold two32.
+        rewrite (Z.mod_small k) by lia. rewrite (Z.mod_small len) by lia.
+        replace (len <=? k) with false by lia. cbv iota.
+        ystep. replace (0 + slot + 0 =? slot) with true by lia. cbv iota. ystep.
+        f_equal. f_equal. unfold signed64, two63. replace (k <? 9223372036854775808) with true by lia. lia.
+  Unshelve. all: exact O.
+Qed.
+
+(* ---------- lengths from 16: the SSE loop ---------- *)
+
+Lemma sse_success_c ax cx dx di r9 r10 r11 r12 r13 r14 r15 x0 x1 x2 x3 x4 x5 x6 x7 fl0 :
+  0 <= di - A -> 0 <= dx -> di - A + dx < two63 ->
+  exists fuel, run fuel 64 (mk ax len cx dx A di slot r9 r10 r11 r12 r13 r14 r15 x0 x1 x2 x3 x4 x5 x6 x7 fl0 None) = Done (Some (di - A + dx)).
+Proof.
+  intros H1 H2 H3. unfold mk. unfold two63 in *. eexists.
+  ystep. rewrite in64_true by (unfold two64; lia). cbv iota.
+  ystep. rewrite in64_true by (unfold two64; lia). cbv iota.
+  ystep. replace (0 + slot + 0 =? slot) with true by lia. cbv iota.
+  ystep. f_equal. f_equal. unfold signed64, two63. replace (di - A + dx <? 9223372036854775808) with true by lia. reflexivity.
+  Unshelve. all: exact O.
+Qed.
+
+(* the last, overlapping chunk [len-16, len) *)
+Lemma sse_final_c ax cx dx di r9 r10 r11 r12 r13 r14 r15 x0 x1 x2 x3 x4 x5 x6 x7 fl0 :
+  16 <= len -> ax = A + len - 16 -> fh (firstn (length s - 16) t) = -1 -> vlow 16 x0 = repeat cc 16 -> vlow 16 x2 = repeat 32 16 ->
+  exists fuel, run fuel 55 (mk ax len cx dx A di slot r9 r10 r11 r12 r13 r14 r15 x0 x1 x2 x3 x4 x5 x6 x7 fl0 None) = Done (Some (fh t)).
+Proof.
+  intros Hl Eax Hp Hx0 Hx2m. pose proof len_nonneg as H0. unfold two63 in Hlen.
+  assert (Hn : len = Z.of_nat (length s)) by reflexivity. pose proof t_length_c as Lt.
+  destruct (chunkT_c 16 (length s - 16)) as (Hld & Hlc & Hm); [lia|].
+  replace (A + Z.of_nat (length s - 16)) with ax in Hld by lia.
+  set (data := firstn 16 (skipn (length s - 16) s)) in *.
+  destruct (fh_chunk t (length s - 16) 16 ltac:(lia) Hp) as [Cz Cnz]. rewrite <- Hm in Cz, Cnz.
+  replace (length s - 16 + 16)%nat with (length t) in Cz by lia. rewrite fh_all in Cz.
+  assert (Lm : length (map (ind f) data) = 16%nat) by (rewrite map_length; exact Hlc).
+  destruct (Z.eq_dec (movmsk (map (ind f) data)) 0) as [Mz|Mnz].
+  - eexists. unfold mk. ystep. ystep. replace (0 + ax + 0) with ax by lia. rewrite Hld. cbv iota.
+    ystep. ystep. ystep. rewrite (cmp_or_low16 cc _ _ _ _ _ Hx0 Hx2m Hlc).
+    ystep. rewrite (movmsk_small16 _ Lm), Mz. change (0 =? 0) with true. cbv iota.
+    ystep. cbn [holds zf negb]. cbv iota.
+    ystep. replace (0 + slot + 0 =? slot) with true by lia. cbv iota. rewrite store_m1.
+    ystep. rewrite (Cz Mz). reflexivity.
+  - destruct (Cnz Mnz) as [Efh Rfh].
+    assert (Hbsf : bsf (movmsk (map (ind f) data)) = fh (map (ind f) data)) by (apply bsf_movmsk; [lia|exact Mnz]).
+    destruct (sse_success_c ax cx (fh (map (ind f) data)) ax r9 r10 r11 r12 r13 r14 r15 x0
+                (vput 16 (map2 (fun x y => if x =? y then 255 else 0) x0 (vput 16 (map2 Z.lor x2 (vput 16 data x1)) (vput 16 data x1))) (vput 16 (map2 Z.lor x2 (vput 16 data x1)) (vput 16 data x1))) x2 x3 x4 x5 x6 x7
+                {| zf := false; cf := cf fl0; lt := lt fl0 |}) as [fu Hfu]; try (unfold two63; lia).
+    eexists. unfold mk. ystep. ystep. replace (0 + ax + 0) with ax by lia. rewrite Hld. cbv iota.
+    ystep. ystep. ystep. rewrite (cmp_or_low16 cc _ _ _ _ _ Hx0 Hx2m Hlc).
+    ystep. rewrite (movmsk_small16 _ Lm). replace (movmsk (map (ind f) data) =? 0) with false by lia. cbv iota. rewrite Hbsf.
+    ystep. cbn [holds zf negb]. cbv iota.
+    unfold mk in Hfu. rewrite Hfu. f_equal. f_equal. lia.
+  Unshelve. all: exact O.
+Qed.
+
+(* the loop: invariant "the first 16k lanes of t hold no match", measure = chunks left *)
+Lemma sse_loop_c (m : nat) : forall (k : nat) ax cx dx di r9 r10 r11 r12 r13 r14 r15 x0 x1 x2 x3 x4 x5 x6 x7 fl0,
+  16 <= len -> ax = A + len - 16 -> di = A + 16 * Z.of_nat k -> 16 * Z.of_nat k <= len ->
+  fh (firstn (16 * k) t) = -1 -> len - 16 - 16 * Z.of_nat k <= 16 * Z.of_nat m -> vlow 16 x0 = repeat cc 16 -> vlow 16 x2 = repeat 32 16 ->
+  exists fuel, run fuel 53 (mk ax len cx dx A di slot r9 r10 r11 r12 r13 r14 r15 x0 x1 x2 x3 x4 x5 x6 x7 fl0 None) = Done (Some (fh t)).
+Proof.
+  induction m as [|m IH]; intros k ax cx dx di r9 r10 r11 r12 r13 r14 r15 x0 x1 x2 x3 x4 x5 x6 x7 fl0 Hl Eax Edi Hk Hp Hm Hx0 Hx2m;
+    pose proof len_nonneg as H0; unfold two63 in Hlen; assert (Hn : len = Z.of_nat (length s)) by reflexivity; pose proof t_length_c as Lt.
+  - assert (Hge : ax <= di) by lia.
+    destruct (sse_final_c ax cx dx di r9 r10 r11 r12 r13 r14 r15 x0 x1 x2 x3 x4 x5 x6 x7 (cmp_flags di ax signed64) Hl Eax) as [fu Hfu]; [|exact Hx0|exact Hx2m|].
+    { apply (fh_firstn_prefix t (16 * k)); [exact Hp|lia]. }
+    eexists. unfold mk. ystep. ystep. rewrite holds_cmp_B. replace (di <? ax) with false by lia. cbv iota.
+    exact Hfu.
+  - destruct (Z_lt_le_dec di ax) as [Hlt|Hge].
+    + destruct (chunkT_c 16 (16 * k)) as (Hld & Hlc & Hmm); [lia|].
+      replace (A + Z.of_nat (16 * k)) with di in Hld by lia.
+      set (data := firstn 16 (skipn (16 * k) s)) in *.
+      destruct (fh_chunk t (16 * k) 16 ltac:(lia) Hp) as [Cz Cnz]. rewrite <- Hmm in Cz, Cnz.
+      assert (Lm : length (map (ind f) data) = 16%nat) by (rewrite map_length; exact Hlc).
+      destruct (Z.eq_dec (movmsk (map (ind f) data)) 0) as [Mz|Mnz].
+      * specialize (Cz Mz). replace (16 * k + 16)%nat with (16 * S k)%nat in Cz by lia.
+        destruct (IH (S k) ax cx 0 (di + 16) r9 r10 r11 r12 r13 r14 r15 x0
+                    (vput 16 (map2 (fun x y => if x =? y then 255 else 0) x0 (vput 16 (map2 Z.lor x2 (vput 16 data x1)) (vput 16 data x1))) (vput 16 (map2 Z.lor x2 (vput 16 data x1)) (vput 16 data x1))) x2 x3 x4 x5 x6 x7
+                    {| zf := true; cf := cf (cmp_flags di ax signed64); lt := lt (cmp_flags di ax signed64) |} Hl Eax) as [fu Hfu]; try lia; [exact Hx0|exact Hx2m|].
+        eexists. unfold mk. ystep. ystep. rewrite holds_cmp_B. replace (di <? ax) with true by lia. cbv iota.
+        ystep. replace (0 + di + 0) with di by lia. rewrite Hld. cbv iota.
+        ystep. ystep. ystep. rewrite (cmp_or_low16 cc _ _ _ _ _ Hx0 Hx2m Hlc).
+        ystep. rewrite (movmsk_small16 _ Lm), Mz. change (0 =? 0) with true. cbv iota.
+        ystep. cbn [holds zf negb]. cbv iota.
+        ystep. change (16 mod two64) with 16. rewrite in64_true by (unfold two64; lia). cbv iota.
+        unfold mk in Hfu. exact Hfu.
+      * destruct (Cnz Mnz) as [Efh Rfh].
+        assert (Hbsf : bsf (movmsk (map (ind f) data)) = fh (map (ind f) data)) by (apply bsf_movmsk; [lia|exact Mnz]).
+        destruct (sse_success_c ax cx (fh (map (ind f) data)) di r9 r10 r11 r12 r13 r14 r15 x0
+                    (vput 16 (map2 (fun x y => if x =? y then 255 else 0) x0 (vput 16 (map2 Z.lor x2 (vput 16 data x1)) (vput 16 data x1))) (vput 16 (map2 Z.lor x2 (vput 16 data x1)) (vput 16 data x1))) x2 x3 x4 x5 x6 x7
+                    {| zf := false; cf := cf (cmp_flags di ax signed64); lt := lt (cmp_flags di ax signed64) |}) as [fu Hfu]; try (unfold two63; lia).
+        eexists. unfold mk. ystep. ystep. rewrite holds_cmp_B. replace (di <? ax) with true by lia. cbv iota.
+        ystep. replace (0 + di + 0) with di by lia. rewrite Hld. cbv iota.
+        ystep. ystep. ystep. rewrite (cmp_or_low16 cc _ _ _ _ _ Hx0 Hx2m Hlc).
+        ystep. rewrite (movmsk_small16 _ Lm). replace (movmsk (map (ind f) data) =? 0) with false by lia. cbv iota. rewrite Hbsf.
+        ystep. cbn [holds zf negb]. cbv iota.
+        unfold mk in Hfu. rewrite Hfu. f_equal. f_equal. lia.
+    + destruct (sse_final_c ax cx dx di r9 r10 r11 r12 r13 r14 r15 x0 x1 x2 x3 x4 x5 x6 x7 (cmp_flags di ax signed64) Hl Eax) as [fu Hfu]; [|exact Hx0|exact Hx2m|].
+      { apply (fh_firstn_prefix t (16 * k)); [exact Hp|lia]. }
+      eexists. unfold mk. ystep. ystep. rewrite holds_cmp_B. replace (di <? ax) with false by lia. cbv iota.
+      exact Hfu.
+  Unshelve. all: exact O.
+Qed.
+
+(* from the dispatch: lengths 16..32, and every length from 16 when the CPU has no AVX2 *)
+Lemma sse_path_c ax cx dx di r9 r10 r11 r12 r13 r14 r15 x0 x1 x2 x3 x4 x5 x6 x7 :
+  16 <= len -> (len <= 32 \/ avx2 = false) -> vlow 16 x0 = repeat cc 16 -> vlow 16 x2 = repeat 32 16 ->
+  exists fuel, run fuel 39 (mk ax len cx dx A di slot r9 r10 r11 r12 r13 r14 r15 x0 x1 x2 x3 x4 x5 x6 x7 (cmp_flags len 16 signed64) None)
+               = Done (Some (fh t)).
+Proof.
+  intros Hl Hor Hx0 Hx2m. pose proof len_nonneg as H0. unfold two63 in Hlen.
+  destruct (Z_le_gt_dec len 32) as [H32|H32].
+  - destruct (sse_loop_c (Z.to_nat len) 0 (-16 + A + len * 1) cx dx A r9 r10 r11 r12 r13 r14 r15 x0 x1 x2 x3 x4 x5 x6 x7
+                (cmp_flags len (32 mod two64) signed64) Hl) as [fu Hfu]; try lia; [reflexivity|exact Hx0|exact Hx2m|].
+    eexists. unfold mk.
+    ystep. rewrite holds_cmp_LT by (unfold two63; lia). replace (len <? 16) with false by lia. cbv iota.
+    ystep. ystep. ystep. rewrite holds_cmp_A. change (32 mod two64) with 32. replace (32 <? len) with false by lia. cbv iota.
+    ystep. rewrite in64_true by (unfold two64; lia). cbv iota.
+    ystep. exact Hfu.
+  - destruct Hor as [Hor|Hor]; [lia|].
+    destruct (sse_loop_c (Z.to_nat len) 0 (-16 + A + len * 1) cx dx A r9 r10 r11 r12 r13 r14 r15 x0 x1 x2 x3 x4 x5 x6 x7
+                (cmp_flags 0 1 (fun v => v)) Hl) as [fu Hfu]; try lia; [reflexivity|exact Hx0|exact Hx2m|].
+    eexists. unfold mk.
+    ystep. rewrite holds_cmp_LT by (unfold two63; lia). replace (len <? 16) with false by lia. cbv iota.
+    ystep. ystep. ystep. rewrite holds_cmp_A. change (32 mod two64) with 32. replace (32 <? len) with true by lia. cbv iota.
+    ystep. replace (if avx2 then 1 else 0) with 0 by (rewrite Hor; reflexivity). ystep. rewrite holds_cmp_NE. change (negb (0 =? 1)) with true. cbv iota.
+    ystep. rewrite in64_true by (unfold two64; lia). cbv iota.
+    ystep. exact Hfu.
+  Unshelve. all: exact O.
+Qed.
+
+(* ---------- lengths above 32 with AVX2 ---------- *)
+
+(* avx2success *)
+Lemma avx2_success_c data ax cx dx di r9 r10 r11 r12 r13 r14 r15 x0 x1 x2 x5 x6 x7 fl0 :
+  length data = 32%nat -> movmsk (map (ind f) data) <> 0 ->
+  0 <= di - A -> di - A + 32 < two63 ->
+  exists fuel, run fuel 118 (mk ax len cx dx A di slot r9 r10 r11 r12 r13 r14 r15 x0 x1 x2 (map (ind f) data) (repeat 32 32) x5 x6 x7 fl0 None)
+  = Done (Some (di - A + fh (map (ind f) data))).
+Proof.
+  intros L Mnz H1 H2. unfold mk. unfold two63 in *.
+  assert (L3 : length (map (ind f) data) = 32%nat) by (rewrite map_length; exact L).
+  assert (Hbsf : bsf (movmsk (map (ind f) data)) = fh (map (ind f) data)) by (apply bsf_movmsk; [lia|exact Mnz]).
+  pose proof (movmsk_range (map (ind f) data)) as R. rewrite L3 in R. change (2 ^ Z.of_nat 32) with 4294967296 in R.
+  destruct (fh_range (map (ind f) data)) as [E|E]; [apply movmsk_zero in E; congruence|]. rewrite L3 in E.
+  eexists.
+  ystep. rewrite (vlow_full 32 _ L3).
+  ystep. unfold two32. rewrite (Z.mod_small (movmsk (map (ind f) data))) by lia. replace (movmsk (map (ind f) data) =? 0) with false by lia. cbv iota. rewrite Hbsf.
+  ystep. rewrite in64_true by (unfold two64; lia). cbv iota.
+  ystep. rewrite in64_true by (unfold two64; lia). cbv iota.
+  ystep. replace (0 + slot + 0 =? slot) with true by lia. cbv iota.
+  ystep. ystep. f_equal. f_equal. unfold signed64, two63.
+  replace (fh (map (ind f) data) + (di - A) <? 9223372036854775808) with true by lia. lia.
+  Unshelve. all: exact O.
+Qed.
+
+(* the five instructions that test one 32-byte chunk (at avx2_loop_c and after it) *)
+Ltac avx2_chunk_c di data x2 x3 Hld L Hx2 Hx3 :=
+  ystep; replace (0 + di + 0) with di by lia; rewrite Hld; cbv iota; rewrite (vput_full 32 data x2 L Hx2);
+  ystep; rewrite (or32 data data L) by lia;
+  ystep; rewrite (cmp_or32 cc data x3 L Hx3);
+  ystep; rewrite ptest_ind;
+  ystep; cbn [holds zf negb].
+
+(* the last, overlapping chunk [len-32, len) *)
+Lemma avx2_final_c ax cx dx di r9 r10 r11 r12 r13 r14 r15 x0 x2 x3 x5 x6 x7 fl0 :
+  32 <= len -> r11 = A + len - 32 -> fh (firstn (length s - 32) t) = -1 -> (length x2 <= 32)%nat -> (length x3 <= 32)%nat ->
+  exists fuel, run fuel 109 (mk ax len cx dx A di slot r9 r10 r11 r12 r13 r14 r15 x0 (repeat cc 32) x2 x3 (repeat 32 32) x5 x6 x7 fl0 None) = Done (Some (fh t)).
+Proof.
+  intros Hl Er Hp Hx2 Hx3. pose proof len_nonneg as H0. unfold two63 in Hlen.
+  assert (Hn : len = Z.of_nat (length s)) by reflexivity. pose proof t_length_c as Lt.
+  destruct (chunkT_c 32 (length s - 32)) as (Hld & L & Hmm); [lia|].
+  replace (A + Z.of_nat (length s - 32)) with r11 in Hld by lia.
+  set (data := firstn 32 (skipn (length s - 32) s)) in *.
+  destruct (fh_chunk t (length s - 32) 32 ltac:(lia) Hp) as [Cz Cnz]. rewrite <- Hmm in Cz, Cnz.
+  replace (length s - 32 + 32)%nat with (length t) in Cz by lia. rewrite fh_all in Cz.
+  destruct (Z.eq_dec (movmsk (map (ind f) data)) 0) as [Mz|Mnz].
+  - eexists. unfold mk. ystep.
+    avx2_chunk_c r11 data x2 x3 Hld L Hx2 Hx3.
+    rewrite Mz. change (negb (0 =? 0)) with false. cbv iota.
+    ystep. ystep. replace (0 + slot + 0 =? slot) with true by lia. cbv iota. rewrite store_m1.
+    ystep. rewrite (Cz Mz). reflexivity.
+  - destruct (Cnz Mnz) as [Efh Rfh].
+    destruct (avx2_success_c data ax cx dx r11 r9 r10 r11 r12 r13 r14 r15 x0 (repeat cc 32) (map (Z.lor 32) data) x5 x6 x7
+                {| zf := false; cf := false; lt := false |} L Mnz) as [fu Hfu]; try (unfold two63; lia).
+    eexists. unfold mk. ystep.
+    avx2_chunk_c r11 data x2 x3 Hld L Hx2 Hx3.
+    replace (movmsk (map (ind f) data) =? 0) with false by lia. cbv [negb]. cbv iota.
+    unfold mk in Hfu. rewrite Hfu. f_equal. f_equal. lia.
+  Unshelve. all: exact O.
+Qed.
+
+(* the loop (entered with at least one whole chunk ahead): invariant "the first 32k lanes of t hold no match" *)
+Lemma avx2_loop_c (m : nat) : forall (k : nat) ax cx dx di r9 r10 r11 r12 r13 r14 r15 x0 x2 x3 x5 x6 x7 fl0,
+  32 <= len -> r11 = A + len - 32 -> di = A + 32 * Z.of_nat k -> 32 * Z.of_nat k + 32 <= len ->
+  fh (firstn (32 * k) t) = -1 -> len - 32 - 32 * Z.of_nat k <= 32 * Z.of_nat m -> (length x2 <= 32)%nat -> (length x3 <= 32)%nat ->
+  exists fuel, run fuel 101 (mk ax len cx dx A di slot r9 r10 r11 r12 r13 r14 r15 x0 (repeat cc 32) x2 x3 (repeat 32 32) x5 x6 x7 fl0 None) = Done (Some (fh t)).
+Proof.
+  induction m as [|m IH].
+  - intros k ax cx dx di r9 r10 r11 r12 r13 r14 r15 x0 x2 x3 x5 x6 x7 fl0 Hl Er Edi Hk Hp Hm Hx2 Hx3;
+    pose proof len_nonneg as H0; unfold two63 in Hlen; assert (Hn : len = Z.of_nat (length s)) by reflexivity; pose proof t_length_c as Lt;
+    destruct (chunkT_c 32 (32 * k)) as (Hld & L & Hmm); [lia|];
+    replace (A + Z.of_nat (32 * k)) with di in Hld by lia;
+    set (data := firstn 32 (skipn (32 * k) s)) in *;
+    (destruct (fh_chunk t (32 * k) 32 ltac:(lia) Hp) as [Cz Cnz]); rewrite <- Hmm in Cz, Cnz;
+    assert (Lm : length (map (ind f) data) = 32%nat) by (rewrite map_length; exact L);
+    (destruct (Z.eq_dec (movmsk (map (ind f) data)) 0) as [Mz|Mnz]).
+    + specialize (Cz Mz). destruct (Z_lt_le_dec (di + 32) r11) as [Hlt|Hge]; [exfalso; lia|].
+      destruct (avx2_final_c ax cx dx (di + 32) r9 r10 r11 r12 r13 r14 r15 x0 (map (Z.lor 32) data) (map (ind f) data) x5 x6 x7 (cmp_flags (di + 32) r11 signed64) ltac:(lia) Er) as [fu Hfu]; [|rewrite map_length; lia|lia|].
+      { apply (fh_firstn_prefix t (32 * k + 32)); [exact Cz|lia]. }
+      eexists. unfold mk.
+      avx2_chunk_c di data x2 x3 Hld L Hx2 Hx3.
+      rewrite Mz. change (negb (0 =? 0)) with false. cbv iota.
+      ystep. change (32 mod two64) with 32. rewrite in64_true by (unfold two64; lia). cbv iota.
+      ystep. ystep. rewrite holds_cmp_LT by (unfold two63; lia). replace (di + 32 <? r11) with false by lia. cbv iota.
+      unfold mk in Hfu. exact Hfu.
+    + 
+    destruct (Cnz Mnz) as [Efh Rfh].
+    destruct (avx2_success_c data ax cx dx di r9 r10 r11 r12 r13 r14 r15 x0 (repeat cc 32) (map (Z.lor 32) data) x5 x6 x7
+                {| zf := false; cf := false; lt := false |} L Mnz) as [fu Hfu]; try (unfold two63; lia).
+    eexists. unfold mk.
+    avx2_chunk_c di data x2 x3 Hld L Hx2 Hx3.
+    replace (movmsk (map (ind f) data) =? 0) with false by lia. cbv [negb]. cbv iota.
+    unfold mk in Hfu. rewrite Hfu. f_equal. f_equal. lia.
+  - intros k ax cx dx di r9 r10 r11 r12 r13 r14 r15 x0 x2 x3 x5 x6 x7 fl0 Hl Er Edi Hk Hp Hm Hx2 Hx3;
+    pose proof len_nonneg as H0; unfold two63 in Hlen; assert (Hn : len = Z.of_nat (length s)) by reflexivity; pose proof t_length_c as Lt;
+    destruct (chunkT_c 32 (32 * k)) as (Hld & L & Hmm); [lia|];
+    replace (A + Z.of_nat (32 * k)) with di in Hld by lia;
+    set (data := firstn 32 (skipn (32 * k) s)) in *;
+    (destruct (fh_chunk t (32 * k) 32 ltac:(lia) Hp) as [Cz Cnz]); rewrite <- Hmm in Cz, Cnz;
+    assert (Lm : length (map (ind f) data) = 32%nat) by (rewrite map_length; exact L);
+    (destruct (Z.eq_dec (movmsk (map (ind f) data)) 0) as [Mz|Mnz]).
+    + specialize (Cz Mz). destruct (Z_lt_le_dec (di + 32) r11) as [Hlt|Hge].
+      {
+      replace (32 * k + 32)%nat with (32 * S k)%nat in Cz by lia.
+      destruct (IH (S k) ax cx dx (di + 32) r9 r10 r11 r12 r13 r14 r15 x0 (map (Z.lor 32) data) (map (ind f) data) x5 x6 x7 (cmp_flags (di + 32) r11 signed64) Hl Er) as [fu Hfu]; try lia; [rewrite map_length; lia|].
+      eexists. unfold mk.
+      avx2_chunk_c di data x2 x3 Hld L Hx2 Hx3.
+      rewrite Mz. change (negb (0 =? 0)) with false. cbv iota.
+      ystep. change (32 mod two64) with 32. rewrite in64_true by (unfold two64; lia). cbv iota.
+      ystep. ystep. rewrite holds_cmp_LT by (unfold two63; lia). replace (di + 32 <? r11) with true by lia. cbv iota.
+      unfold mk in Hfu. exact Hfu.
+      }
+      destruct (avx2_final_c ax cx dx (di + 32) r9 r10 r11 r12 r13 r14 r15 x0 (map (Z.lor 32) data) (map (ind f) data) x5 x6 x7 (cmp_flags (di + 32) r11 signed64) ltac:(lia) Er) as [fu Hfu]; [|rewrite map_length; lia|lia|].
+      { apply (fh_firstn_prefix t (32 * k + 32)); [exact Cz|lia]. }
+      eexists. unfold mk.
+      avx2_chunk_c di data x2 x3 Hld L Hx2 Hx3.
+      rewrite Mz. change (negb (0 =? 0)) with false. cbv iota.
+      ystep. change (32 mod two64) with 32. rewrite in64_true by (unfold two64; lia). cbv iota.
+      ystep. ystep. rewrite holds_cmp_LT by (unfold two63; lia). replace (di + 32 <? r11) with false by lia. cbv iota.
+      unfold mk in Hfu. exact Hfu.
+    + 
+    destruct (Cnz Mnz) as [Efh Rfh].
+    destruct (avx2_success_c data ax cx dx di r9 r10 r11 r12 r13 r14 r15 x0 (repeat cc 32) (map (Z.lor 32) data) x5 x6 x7
+                {| zf := false; cf := false; lt := false |} L Mnz) as [fu Hfu]; try (unfold two63; lia).
+    eexists. unfold mk.
+    avx2_chunk_c di data x2 x3 Hld L Hx2 Hx3.
+    replace (movmsk (map (ind f) data) =? 0) with false by lia. cbv [negb]. cbv iota.
+    unfold mk in Hfu. rewrite Hfu. f_equal. f_equal. lia.
+  Unshelve. all: exact O.
+Qed.
+
+
+(* from the dispatch: lengths above 32 on a CPU with AVX2 *)
+Lemma avx2_path_c ax cx dx di r9 r10 r11 r12 r13 r14 r15 x0 x1 x2 x3 x4 x5 x6 x7 :
+  32 < len -> avx2 = true -> (ax mod two32) mod 256 = cc -> vlow 16 x2 = repeat 32 16 -> (length x2 <= 32)%nat -> (length x3 <= 32)%nat ->
+  exists fuel, run fuel 39 (mk ax len cx dx A di slot r9 r10 r11 r12 r13 r14 r15 x0 x1 x2 x3 x4 x5 x6 x7 (cmp_flags len 16 signed64) None)
+               = Done (Some (fh t)).
+Proof.
+  intros Hl Hav Hax Hx2m Hx2 Hx3. pose proof len_nonneg as H0. unfold two63 in Hlen.
+  destruct (avx2_loop_c (Z.to_nat len) 0 ax cx dx A r9 r10 (-32 + A + len * 1) r12 r13 r14 r15
+              (vput 16 (le_bytes4 (ax mod two32) ++ repeat 0 12) x0) x2 x3 x5 x6 x7
+              (cmp_flags 1 1 (fun v => v))) as [fu Hfu]; try lia; [reflexivity|].
+  eexists. unfold mk.
+  ystep. rewrite holds_cmp_LT by (unfold two63; lia). replace (len <? 16) with false by lia. cbv iota.
+  ystep. ystep. ystep. rewrite holds_cmp_A. change (32 mod two64) with 32. replace (32 <? len) with true by lia. cbv iota.
+  ystep. replace (if avx2 then 1 else 0) with 1 by (rewrite Hav; reflexivity).
+  ystep. rewrite holds_cmp_NE. change (negb (1 =? 1)) with false. cbv iota.
+  ystep. rewrite (hd_vlow16 x2 32 Hx2m).
+  ystep. ystep. rewrite in64_true by (unfold two64; lia). cbv iota.
+  ystep. rewrite hd_movd, Hax.
+  ystep. unfold mk in Hfu. exact Hfu.
+  Unshelve. all: exact O.
+Qed.
+
+Lemma from_dispatch_c ax cx dx di r9 r10 r11 r12 r13 r14 r15 x0 x1 x2 x3 x4 x5 x6 x7 :
+  (ax mod two32) mod 256 = cc -> vlow 16 x0 = repeat cc 16 -> vlow 16 x2 = repeat 32 16 -> (length x2 <= 32)%nat -> (length x3 <= 32)%nat ->
+  exists fuel, run fuel 39 (mk ax len cx dx A di slot r9 r10 r11 r12 r13 r14 r15 x0 x1 x2 x3 x4 x5 x6 x7 (cmp_flags len 16 signed64) None)
+               = Done (Some (fh t)).
+Proof.
+  intros Hax Hx0 Hx2m Hx2 Hx3.
+  destruct (Z_lt_le_dec len 16) as [H16|H16]; [apply small_path_c; assumption|].
+  destruct (Z_le_gt_dec len 32) as [H32|H32]; [apply sse_path_c; [exact H16|left; exact H32|exact Hx0|exact Hx2m]|].
+  destruct (bool_dec avx2 true) as [Hav|Hav].
+  - apply avx2_path_c; try assumption. lia.
+  - apply sse_path_c; [exact H16|right; apply not_true_is_false; exact Hav|exact Hx0|exact Hx2m].
+Qed.
+
+(* the body, entered with the needle (a letter, either case) in AL *)
+Theorem body_case ax cx dx di r9 r10 r11 r12 r13 r14 r15 x0 x1 x2 x3 x4 x5 x6 x7 fl0 :
+  Z.lor (ax mod 256) 32 = cc -> (length x2 <= 32)%nat -> (length x3 <= 32)%nat ->
+  exists fuel, run fuel 28 (mk ax len cx dx A di slot r9 r10 r11 r12 r13 r14 r15 x0 x1 x2 x3 x4 x5 x6 x7 fl0 None) = Done (Some (fh t)).
+Proof.
+  intros Hax Hx2 Hx3.
+  set (ax1 := Z.lor ax (32 mod two64) mod two32).
+  assert (Hax1 : (ax1 mod two32) mod 256 = cc).
+  { unfold ax1. rewrite <- Hax. pose proof (lor_low8 ax 32) as E. change (32 mod 256) with 32 in E. rewrite <- E.
+    change (32 mod two64) with 32. generalize (Z.lor ax 32). intros v. unfold two32. lia. }
+  destruct (from_dispatch_c ax1 (32 mod two64) dx di r9 r10 r11 r12 r13 r14 r15 (bcast16 (ax1 mod two32) x0) x1
+              (bcast16q (32 mod two64) x2) x3 x4 x5 x6 x7 Hax1) as [fu Hfu];
+    [rewrite bcast16_low, Hax1; reflexivity|rewrite bcast16q_low; reflexivity|apply bcast16q_length; exact Hx2|exact Hx3|].
+  eexists. unfold mk. ystep. fold ax1. ystep. ystep. ystep. ystep. ystep. ystep. ystep. ystep. ystep. ystep. change (16 mod two64) with 16.
+  unfold mk, bcast16, bcast16q in Hfu. exact Hfu.
+  Unshelve. all: exact O.
+Qed.
+
+Lemma fh_t_c : fh t = index_byte_from f s 0.
+Proof. apply fh_map_ind. Qed.
+
+End Case.
+
+(* ===================================================================== *)
+(* the wrappers: the letter test selects the body                          *)
+(* ===================================================================== *)
+Notation c8 := (c mod 256).
+
+Lemma wrap_upper_byt r0 : (c8 - 65) mod 256 <= 25 ->
+  exists ax' cx' fl', ax' mod 256 = c8 /\ forall f,
+    run (S (S (S (S (S (S (S (S (S f))))))))) 0 (init r0)
+    = run f 28 (mk ax' len cx' (r0 DX) A (r0 DI) slot (r0 R9) (r0 R10) (r0 R11) (r0 R12) (r0 R13) (r0 R14) (r0 R15)
+                      (repeat 0 32) (repeat 0 32) (repeat 0 32) (repeat 0 32) (repeat 0 32) (repeat 0 32) (repeat 0 32) (repeat 0 32) fl' None).
+Proof.
+  intros Hc. pose proof (Z.mod_pos_bound c 256 ltac:(lia)) as Hc8.
+  do 3 eexists. split; cycle 1.
+  { intros f. unfold init.
+    ystep. ystep. ystep. ystep. ystep. ystep.
+    ystep. rewrite holds_cmp_BE. match goal with |- context [if ?b then _ else _] => replace b with true by (unfold two32, two64; lia) end. cbv iota.
+    ystep. ystep.
+    unfold mk. reflexivity. }
+  cbv beta. unfold two32, two64. lia.
+Qed.
+
+Lemma wrap_lower_byt r0 : 25 < (c8 - 65) mod 256 /\ (c8 - 97) mod 256 <= 25 ->
+  exists ax' cx' fl', ax' mod 256 = c8 /\ forall f,
+    run (S (S (S (S (S (S (S (S (S (S (S (S f)))))))))))) 0 (init r0)
+    = run f 28 (mk ax' len cx' (r0 DX) A (r0 DI) slot (r0 R9) (r0 R10) (r0 R11) (r0 R12) (r0 R13) (r0 R14) (r0 R15)
+                      (repeat 0 32) (repeat 0 32) (repeat 0 32) (repeat 0 32) (repeat 0 32) (repeat 0 32) (repeat 0 32) (repeat 0 32) fl' None).
+Proof.
+  intros Hc. pose proof (Z.mod_pos_bound c 256 ltac:(lia)) as Hc8.
+  do 3 eexists. split; cycle 1.
+  { intros f. unfold init.
+    ystep. ystep. ystep. ystep. ystep. ystep.
+    ystep. rewrite holds_cmp_BE. match goal with |- context [if ?b then _ else _] => replace b with false by (unfold two32, two64; lia) end. cbv iota.
+    ystep. ystep. ystep. rewrite holds_cmp_A. match goal with |- context [if ?b then _ else _] => replace b with false by (unfold two32, two64; lia) end. cbv iota.
+    ystep. ystep.
+    unfold mk. reflexivity. }
+  cbv beta. unfold two32, two64. lia.
+Qed.
+
+Lemma wrap_plain_byt r0 : 25 < (c8 - 65) mod 256 /\ 25 < (c8 - 97) mod 256 ->
+  exists ax' cx' fl', (ax' mod two32) mod 256 = c8 /\ forall f,
+    run (S (S (S (S (S (S (S (S (S (S (S (S f)))))))))))) 0 (init r0)
+    = run f 125 (mk ax' len cx' (r0 DX) A (r0 DI) slot (r0 R9) (r0 R10) (r0 R11) (r0 R12) (r0 R13) (r0 R14) (r0 R15)
+                      (repeat 0 32) (repeat 0 32) (repeat 0 32) (repeat 0 32) (repeat 0 32) (repeat 0 32) (repeat 0 32) (repeat 0 32) fl' None).
+Proof.
+  intros Hc. pose proof (Z.mod_pos_bound c 256 ltac:(lia)) as Hc8.
+  do 3 eexists. split; cycle 1.
+  { intros f. unfold init.
+    ystep. ystep. ystep. ystep. ystep. ystep.
+    ystep. rewrite holds_cmp_BE. match goal with |- context [if ?b then _ else _] => replace b with false by (unfold two32, two64; lia) end. cbv iota.
+    ystep. ystep. ystep. rewrite holds_cmp_A. match goal with |- context [if ?b then _ else _] => replace b with true by (unfold two32, two64; lia) end. cbv iota.
+    ystep. ystep.
+    unfold mk. reflexivity. }
+  cbv beta. unfold two32, two64. lia.
+Qed.
+
+Lemma wrap_upper_str r0 : (c8 - 65) mod 256 <= 25 ->
+  exists ax' cx' fl', ax' mod 256 = c8 /\ forall f,
+    run (S (S (S (S (S (S (S (S (S f))))))))) 14 (init r0)
+    = run f 28 (mk ax' len cx' (r0 DX) A (r0 DI) slot (r0 R9) (r0 R10) (r0 R11) (r0 R12) (r0 R13) (r0 R14) (r0 R15)
+                      (repeat 0 32) (repeat 0 32) (repeat 0 32) (repeat 0 32) (repeat 0 32) (repeat 0 32) (repeat 0 32) (repeat 0 32) fl' None).
+Proof.
+  intros Hc. pose proof (Z.mod_pos_bound c 256 ltac:(lia)) as Hc8.
+  do 3 eexists. split; cycle 1.
+  { intros f. unfold init.
+    ystep. ystep. ystep. ystep. ystep. ystep.
+    ystep. rewrite holds_cmp_BE. match goal with |- context [if ?b then _ else _] => replace b with true by (unfold two32, two64; lia) end. cbv iota.
+    ystep. ystep.
+    unfold mk. reflexivity. }
+  cbv beta. unfold two32, two64. lia.
+Qed.
+
+Lemma wrap_lower_str r0 : 25 < (c8 - 65) mod 256 /\ (c8 - 97) mod 256 <= 25 ->
+  exists ax' cx' fl', ax' mod 256 = c8 /\ forall f,
+    run (S (S (S (S (S (S (S (S (S (S (S (S f)))))))))))) 14 (init r0)
+    = run f 28 (mk ax' len cx' (r0 DX) A (r0 DI) slot (r0 R9) (r0 R10) (r0 R11) (r0 R12) (r0 R13) (r0 R14) (r0 R15)
+                      (repeat 0 32) (repeat 0 32) (repeat 0 32) (repeat 0 32) (repeat 0 32) (repeat 0 32) (repeat 0 32) (repeat 0 32) fl' None).
+Proof.
+  intros Hc. pose proof (Z.mod_pos_bound c 256 ltac:(lia)) as Hc8.
+  do 3 eexists. split; cycle 1.
+  { intros f. unfold init.
+    ystep. ystep. ystep. ystep. ystep. ystep.
+    ystep. rewrite holds_cmp_BE. match goal with |- context [if ?b then _ else _] => replace b with false by (unfold two32, two64; lia) end. cbv iota.
+    ystep. ystep. ystep. rewrite holds_cmp_A. match goal with |- context [if ?b then _ else _] => replace b with false by (unfold two32, two64; lia) end. cbv iota.
+    ystep. ystep.
+    unfold mk. reflexivity. }
+  cbv beta. unfold two32, two64. lia.
+Qed.
+
+Lemma wrap_plain_str r0 : 25 < (c8 - 65) mod 256 /\ 25 < (c8 - 97) mod 256 ->
+  exists ax' cx' fl', (ax' mod two32) mod 256 = c8 /\ forall f,
+    run (S (S (S (S (S (S (S (S (S (S (S (S f)))))))))))) 14 (init r0)
+    = run f 125 (mk ax' len cx' (r0 DX) A (r0 DI) slot (r0 R9) (r0 R10) (r0 R11) (r0 R12) (r0 R13) (r0 R14) (r0 R15)
+                      (repeat 0 32) (repeat 0 32) (repeat 0 32) (repeat 0 32) (repeat 0 32) (repeat 0 32) (repeat 0 32) (repeat 0 32) fl' None).
+Proof.
+  intros Hc. pose proof (Z.mod_pos_bound c 256 ltac:(lia)) as Hc8.
+  do 3 eexists. split; cycle 1.
+  { intros f. unfold init.
+    ystep. ystep. ystep. ystep. ystep. ystep.
+    ystep. rewrite holds_cmp_BE. match goal with |- context [if ?b then _ else _] => replace b with false by (unfold two32, two64; lia) end. cbv iota.
+    ystep. ystep. ystep. rewrite holds_cmp_A. match goal with |- context [if ?b then _ else _] => replace b with true by (unfold two32, two64; lia) end. cbv iota.
+    ystep. ystep.
+    unfold mk. reflexivity. }
+  cbv beta. unfold two32, two64. lia.
+Qed.
+
+(* the two lane tests are the scalar definition byte_match: all 256 x 256 (needle, byte) pairs *)
+Lemma asm_match_chk :
+  chk_pairs (fun c b => if ((c - 65) mod 256 <=? 25) || ((c - 97) mod 256 <=? 25)
+                        then Bool.eqb (Z.lor c 32 =? Z.lor 32 b) (byte_match c b)
+                        else Bool.eqb (c =? b) (byte_match c b)) = true.
+Proof. vm_compute. reflexivity. Qed.
+
+Lemma match_case x : 0 <= x < 256 -> ((x - 65) mod 256 <= 25 \/ (x - 97) mod 256 <= 25) ->
+  index_byte_from (fun b => Z.lor x 32 =? Z.lor 32 b) s 0 = k_index_byte s x.
+Proof.
+  intros Hx Ha. unfold k_index_byte. apply index_from_ext_wf; [exact Hwf|]. intros b Hb.
+  pose proof (chk_pairs_spec _ asm_match_chk x b Hx Hb) as C. cbv beta in C.
+  replace (((x - 65) mod 256 <=? 25) || ((x - 97) mod 256 <=? 25)) with true in C by lia. apply eqb_prop in C. exact C.
+Qed.
+
+Lemma match_plain x : 0 <= x < 256 -> (25 < (x - 65) mod 256 /\ 25 < (x - 97) mod 256) ->
+  index_byte_from (Z.eqb x) s 0 = k_index_byte s x.
+Proof.
+  intros Hx Ha. unfold k_index_byte. apply index_from_ext_wf; [exact Hwf|]. intros b Hb.
+  pose proof (chk_pairs_spec _ asm_match_chk x b Hx Hb) as C. cbv beta in C.
+  replace (((x - 65) mod 256 <=? 25) || ((x - 97) mod 256 <=? 25)) with false in C by lia. apply eqb_prop in C. exact C.
+Qed.
+
+(* THE KERNEL THEOREM for IndexByte / IndexByteString: started with arbitrary register contents, for every needle
+   byte, the run returns the scalar definition k_index_byte (the first byte equal to the needle or, for an ASCII
+   letter, to its other case; -1 if none): at every address >= 4096 and alignment, for every content of the
+   surrounding memory, with and without AVX2; Done also says that no load left the pages of the argument, that the
+   only store was the result and that no address computation wrapped. *)
+
+Theorem index_byte_asm_byt r0 :
+  exists fuel, run fuel entry_indexbyte_go122_amd64_IndexByte (init r0) = Done (Some (k_index_byte s c8)).
+Proof.
+  pose proof (Z.mod_pos_bound c 256 ltac:(lia)) as Hc8. unfold entry_indexbyte_go122_amd64_IndexByte.
+  assert (L32 : (length (repeat 0 32) <= 32)%nat) by (rewrite repeat_length; lia).
+  destruct (Z_le_gt_dec ((c8 - 65) mod 256) 25) as [Hu|Hu].
+  - destruct (wrap_upper_byt r0 Hu) as (ax' & cx' & fl' & Hax & Hrun).
+    destruct (body_case (Z.lor c8 32) ax' cx' (r0 DX) (r0 DI) (r0 R9) (r0 R10) (r0 R11) (r0 R12) (r0 R13) (r0 R14) (r0 R15)
+                (repeat 0 32) (repeat 0 32) (repeat 0 32) (repeat 0 32) (repeat 0 32) (repeat 0 32) (repeat 0 32) (repeat 0 32) fl'
+                ltac:(rewrite Hax; reflexivity) L32 L32) as [fu Hfu].
+    eexists. rewrite Hrun. rewrite Hfu. rewrite fh_t_c. f_equal. f_equal. apply match_case; [exact Hc8|left; exact Hu].
+  - destruct (Z_le_gt_dec ((c8 - 97) mod 256) 25) as [Hl|Hl].
+    + destruct (wrap_lower_byt r0 ltac:(lia)) as (ax' & cx' & fl' & Hax & Hrun).
+      destruct (body_case (Z.lor c8 32) ax' cx' (r0 DX) (r0 DI) (r0 R9) (r0 R10) (r0 R11) (r0 R12) (r0 R13) (r0 R14) (r0 R15)
+                  (repeat 0 32) (repeat 0 32) (repeat 0 32) (repeat 0 32) (repeat 0 32) (repeat 0 32) (repeat 0 32) (repeat 0 32) fl'
+                  ltac:(rewrite Hax; reflexivity) L32 L32) as [fu Hfu].
+      eexists. rewrite Hrun. rewrite Hfu. rewrite fh_t_c. f_equal. f_equal. apply match_case; [exact Hc8|right; lia].
+    + destruct (wrap_plain_byt r0 ltac:(lia)) as (ax' & cx' & fl' & Hax & Hrun).
+      destruct (body_plain c8 ax' cx' (r0 DX) (r0 DI) (r0 R9) (r0 R10) (r0 R11) (r0 R12) (r0 R13) (r0 R14) (r0 R15)
+                  (repeat 0 32) (repeat 0 32) (repeat 0 32) (repeat 0 32) (repeat 0 32) (repeat 0 32) (repeat 0 32) (repeat 0 32) fl'
+                  Hax L32 L32) as [fu Hfu].
+      eexists. rewrite Hrun. rewrite Hfu. rewrite fh_t. f_equal. f_equal. apply match_plain; [exact Hc8|lia].
+Qed.
+
+Theorem index_byte_asm_str r0 :
+  exists fuel, run fuel entry_indexbyte_go122_amd64_IndexByteString (init r0) = Done (Some (k_index_byte s c8)).
+Proof.
+  pose proof (Z.mod_pos_bound c 256 ltac:(lia)) as Hc8. unfold entry_indexbyte_go122_amd64_IndexByteString.
+  assert (L32 : (length (repeat 0 32) <= 32)%nat) by (rewrite repeat_length; lia).
+  destruct (Z_le_gt_dec ((c8 - 65) mod 256) 25) as [Hu|Hu].
+  - destruct (wrap_upper_str r0 Hu) as (ax' & cx' & fl' & Hax & Hrun).
+    destruct (body_case (Z.lor c8 32) ax' cx' (r0 DX) (r0 DI) (r0 R9) (r0 R10) (r0 R11) (r0 R12) (r0 R13) (r0 R14) (r0 R15)
+                (repeat 0 32) (repeat 0 32) (repeat 0 32) (repeat 0 32) (repeat 0 32) (repeat 0 32) (repeat 0 32) (repeat 0 32) fl'
+                ltac:(rewrite Hax; reflexivity) L32 L32) as [fu Hfu].
+    eexists. rewrite Hrun. rewrite Hfu. rewrite fh_t_c. f_equal. f_equal. apply match_case; [exact Hc8|left; exact Hu].
+  - destruct (Z_le_gt_dec ((c8 - 97) mod 256) 25) as [Hl|Hl].
+    + destruct (wrap_lower_str r0 ltac:(lia)) as (ax' & cx' & fl' & Hax & Hrun).
+      destruct (body_case (Z.lor c8 32) ax' cx' (r0 DX) (r0 DI) (r0 R9) (r0 R10) (r0 R11) (r0 R12) (r0 R13) (r0 R14) (r0 R15)
+                  (repeat 0 32) (repeat 0 32) (repeat 0 32) (repeat 0 32) (repeat 0 32) (repeat 0 32) (repeat 0 32) (repeat 0 32) fl'
+                  ltac:(rewrite Hax; reflexivity) L32 L32) as [fu Hfu].
+      eexists. rewrite Hrun. rewrite Hfu. rewrite fh_t_c. f_equal. f_equal. apply match_case; [exact Hc8|right; lia].
+    + destruct (wrap_plain_str r0 ltac:(lia)) as (ax' & cx' & fl' & Hax & Hrun).
+      destruct (body_plain c8 ax' cx' (r0 DX) (r0 DI) (r0 R9) (r0 R10) (r0 R11) (r0 R12) (r0 R13) (r0 R14) (r0 R15)
+                  (repeat 0 32) (repeat 0 32) (repeat 0 32) (repeat 0 32) (repeat 0 32) (repeat 0 32) (repeat 0 32) (repeat 0 32) fl'
+                  Hax L32 L32) as [fu Hfu].
+      eexists. rewrite Hrun. rewrite Hfu. rewrite fh_t. f_equal. f_equal. apply match_plain; [exact Hc8|lia].
+Qed.
+
 End K.
